@@ -178,6 +178,12 @@ class Body:
                                 if (a_ in tracked) != (b_ in tracked):   # whole-value moves carry the variant both ways
                                     tracked.update((a_, b_))
                                     changed = True
+                    t_ = blk["term"]
+                    if t_["k"] == "call" and not t_["dest"]["p"] and t_["args"] and str(callee_of(t_)[0] or "").endswith("::branch"):
+                        a0 = t_["args"][0]
+                        if a0["k"] in ("copy", "move") and not a0["p"]["p"] and (a0["p"]["l"] in tracked) != (t_["dest"]["l"] in tracked):
+                            tracked.update((a0["p"]["l"], t_["dest"]["l"]))     # `x?`: Ok/Some -> Continue, Err/None -> Break
+                            changed = True
             order = sorted(tracked)
             idx = {l: i for i, l in enumerate(order)}
             tests = {}
@@ -217,7 +223,13 @@ class Body:
                 t = blk["term"]
                 tail = []
                 if t["k"] == "call" and not t["dest"]["p"] and t["dest"]["l"] in idx:
-                    tail.append(idx[t["dest"]["l"]])
+                    op = ("clear",)
+                    if t["args"] and str(callee_of(t)[0] or "").endswith("::branch"):
+                        a0 = t["args"][0]
+                        if a0["k"] in ("copy", "move") and not a0["p"]["p"] and a0["p"]["l"] in idx:
+                            is_opt = "option::Option<" in str(self.locals[a0["p"]["l"]].get("ty", ""))
+                            op = ("branch", idx[a0["p"]["l"]], is_opt)
+                    tail.append((idx[t["dest"]["l"]], op))
                 if ef or tail:
                     effects[bi] = (ef, tail)
             self._ps_building = False
@@ -230,8 +242,12 @@ class Body:
         new = list(tags)
         if b is not None:
             # the call that ends b defines its destination on the way out
-            for x in effects.get(b, ((), ()))[1]:
-                new[x] = None
+            for x, op in effects.get(b, ((), ()))[1]:
+                if op[0] == "branch" and new[op[1]] is not None:
+                    # Continue = 0, Break = 1; Ok = 0 / Err = 1 map straight, Some = 1 / None = 0 the other way round
+                    new[x] = (1 - new[op[1]]) if op[2] else new[op[1]]
+                else:
+                    new[x] = None
             if b in tests:
                 known = new[tests[b]]
                 if known is not None:
